@@ -55,6 +55,7 @@ def eval (rs : Roles) : List String → Option String
     let (_, om) ← rs.get role
     let [a, b, c, d, p] ← [a, b, c, d, p].mapM String.toNat? | none
     some ("text " ++ hexOf (format om a b c d p))
+  | ["addr-kept", _] => some "same"     -- a text handed out is a value: it does not change when another address is formatted
   | _ => none
 
 def spec (c impl : List String) : Option String :=
